@@ -23,6 +23,11 @@ DayA   == Rule("day-a", "date_day", <<>>, 0, << <<20161230, 20161231>>, <<201701
 DayB   == Rule("day-b", "date_day", <<>>, 0, << <<20200228, 20200301>> >>, FALSE)
 
 QuickRules    == <<HashA, ModA, RangeA, YearA, MonthA, DayA>>
+\* C03 quick: the quick catalogue plus layouts with an unconfigured period between configured ones
+MonthGap == Rule("month-gap", "date_month", <<>>, 0, << <<201611, 201611>>, <<201701, 201702>> >>, FALSE)
+DayGap   == Rule("day-gap", "date_day", <<>>, 0, << <<20161230, 20161230>>, <<20170101, 20170102>> >>, FALSE)
+InsQuickRules    == <<HashA, ModA, RangeA, YearA, YearB, MonthA, MonthGap, DayA>>
+InsThoroughRules == <<HashA, HashB, ModA, ModB, RangeA, RangeB, YearA, YearB, MonthA, MonthB, MonthGap, DayA, DayB, DayGap>>
 ThoroughRules == <<HashA, HashB, ModA, ModB, RangeA, RangeB, YearA, YearB, MonthA, MonthB, DayA, DayB>>
 \* families for the design-level check of the pruning algebra as written
 PlainRules    == <<HashA, HashB, ModA, ModB>>
